@@ -751,3 +751,42 @@ pub fn event_discipline(p: &StdPair) -> Vec<(String, String)> {
     }
     out
 }
+
+/// An exact stateless reset addressed to `target`: a short-header-looking datagram ending in the
+/// reset token that `target`'s peer endpoint associates with the connection ID `target` currently
+/// uses towards it. `None` if no short-header packet was sent yet, the CID is empty, or the token
+/// has not been conveyed to `target` (NEW_CONNECTION_ID seen on the wire, or server transport
+/// parameters after the handshake). Needs `keep_data`.
+pub fn exact_stateless_reset(p: &StdPair, target: usize) -> Option<Vec<u8>> {
+    use crate::sim::Rec;
+    let peer = 1 - target;
+    let cl = p.w.nodes[peer].cid_len;
+    let mut cid: Option<Vec<u8>> = None;
+    for r in p.w.recs.iter().rev() {
+        if let Rec::Emit { node, data, ch: Some(_), .. } = r {
+            if *node == target {
+                let (pk, _) = crate::wire::parse_datagram(data, cl);
+                if let Some(s) = pk.iter().find(|x| x.ty == crate::wire::PType::Short) {
+                    cid = Some(s.dcid.clone());
+                    break;
+                }
+            }
+        }
+    }
+    let cid = cid.filter(|c| !c.is_empty())?;
+    let tcl = p.w.nodes[target].cid_len;
+    let via_frame = p.w.recs.iter().any(|r| match r {
+        Rec::Emit { node, data, fate, .. } if *node == peer && *fate != crate::sim::Fate::Drop => crate::ledger::decode(data, tcl)
+            .iter()
+            .any(|(_, fr)| fr.iter().any(|f| matches!(f, crate::wire::WFrame::NewConnectionId { cid: c2, .. } if *c2 == cid))),
+        _ => false,
+    });
+    let via_params = target == CLIENT && !p.client().conn.is_handshaking();
+    if !(via_frame || via_params) {
+        return None;
+    }
+    let tok = crate::sim::reset_token_for(p.w.nodes[peer].seed, &cid);
+    let mut d: Vec<u8> = (0..30).map(|i| 0x40 | ((i * 7) as u8 & 0x3f)).collect();
+    d.extend_from_slice(&tok);
+    Some(d)
+}
